@@ -475,6 +475,23 @@ Proof.
 Qed.
 Print Assumptions C15_parsed_message_encodes_and_validates.
 
+(* ... and for a Z MESSAGE (MSH-9 names a Z structure, e.g. ZDT^Z01: Message.is_z_element(), validated
+   through _check_z_element - no message-level structure) the report is known exactly: every child of a
+   parsed Z message is a segment carrying the segment table's entry of its name (the empty structure of a
+   Z message opens no group and hands no reference to a segment), and Message.validate() reports the
+   concatenation, in order, of what Segment.validate() reports for each segment (first exception wins -
+   and by C15_validate_message_total there is none).  Proofs/ValidateZParsed.v, Proofs/ValidateZ.v; the
+   Z-message theorems for arbitrary trees are in Properties/C04.v (the C04_z_message theorems). *)
+From HL7 Require Import Proofs.ValidateZ Proofs.ValidateZParsed.
+
+Theorem C15_parsed_z_message_report : forall dflt lvl find_groups (text : str) t m mn lvl' e',
+  parse_message tables_of dflt lvl find_groups text = Ok (t, m) ->
+  m_name m = Some mn -> Validate.valid_z_message_name mn = true ->
+  exists segs, m_children m = map NSeg segs /\ (forall s, In s segs -> table_seg t s) /\
+               validate_message_log t lvl' e' m = seq_res (map (validate_seg_log t e') segs).
+Proof. exact parsed_z_message_segmentwise. Qed.
+Print Assumptions C15_parsed_z_message_report.
+
 (* for ANY tables satisfying the segment-level premises and any message tree satisfying the invariant
    `mok` (the statement does not depend on the shipped data) *)
 Theorem C15_validate_message_total_general : forall t lvl e m,
